@@ -360,6 +360,12 @@ theorem DrainsOk.step_data {d d1 d' : Decoder} {x : Bytes} {m : Bool} {acc evs :
   rcases hr with ⟨fuel, e⟩
   exact ⟨fuel + 1, by rw [drain_data _ _ h, e]; simp⟩
 
+theorem DrainsOk.step_pre {d d1 d' : Decoder} {x : Bytes} {acc evs : List Event}
+    (h : nextEvent d = .ok (.preamble x, d1)) (hr : DrainsOk d1 (.preamble x :: acc) evs d') :
+    DrainsOk d acc (.preamble x :: evs) d' := by
+  rcases hr with ⟨fuel, e⟩
+  exact ⟨fuel + 1, by rw [drain_pre _ _ h, e]; simp⟩
+
 theorem DrainsOk.step_head {d d1 d' : Decoder} {q : Part} {acc evs : List Event}
     (h : nextEvent d = .ok (partHeadEvent q, d1)) (hr : DrainsOk d1 (partHeadEvent q :: acc) evs d') :
     DrainsOk d acc (partHeadEvent q :: evs) d' := by
@@ -554,6 +560,7 @@ theorem parseHeaders_block_lf (lf : Bool) (hs : Headers) (hne : hs ≠ []) (hok 
 /-! ### phases of the run over the encoder output -/
 
 inductive Phase where
+  | pre (ps : List Part)
   | hdr (lf : Bool) (p : Part) (ps : List Part)
   | dataS (p : Part) (ps : List Part)
   | dataM (p : Part) (ps : List Part) (E : Bytes)
@@ -569,6 +576,8 @@ def DataInv (bnd : Bytes) (p : Part) (ps : List Part) (pre buf fut : Bytes) : Pr
     (pre ++ (buf ++ fut).take s0).drop 2 = p.payload ∧ (buf ++ fut).drop e0 = afterOf bnd ps
 
 def Good (bnd : Bytes) (d : Decoder) (fut : Bytes) : Phase → Prop
+  | .pre ps =>
+    Plain bnd d ∧ d.state = .preamble ∧ d.searchPos = 0 ∧ d.buffer ++ fut = encBody bnd ps
   | .hdr lf p ps =>
     Plain bnd d ∧ d.state = .part ∧ d.buffer ++ fut = lfPre lf ++ afterOf bnd (p :: ps) ∧
       ∃ b0 c0, d.buffer = b0 ++ c0 ∧ searchBlank b0 = none ∧ d.searchPos = b0.length - searchExtra
@@ -726,10 +735,245 @@ theorem step_hdr {bnd : Bytes} (hb : BoundaryOk bnd) {d : Decoder} {fut : Bytes}
       simp [L] at hlen
       omega
 
+theorem lbLen_of_crlf_prefix {b fut Z : Bytes} (h : b ++ fut = 13 :: 10 :: Z) (h2 : 2 ≤ b.length) :
+    lbLen b = 2 := by
+  match b, h2 with
+  | x :: y :: t, _ =>
+    simp at h
+    rw [h.1, h.2.1]; simp [lbLen]
+
+/-! ### PREAMBLE: the first delimiter of the encoder output -/
+
+theorem matchDelimAt_true_of_false {bnd x : Bytes} {n : Nat} {f : Bool}
+    (h : matchDelimAt bnd false x = some (n, f)) : matchDelimAt bnd true x = some (n, f) := by
+  rcases matchDelimAt_iff.1 h with ⟨r, m, hl, hd, hm, hn⟩
+  exact matchDelimAt_iff'.2 ⟨r, m, by simp, hd, hm, hn⟩
+
+theorem matchDelimAt_false_of_true {bnd x : Bytes} {n : Nat} {f : Bool} (hl : 0 < lbLen x)
+    (h : matchDelimAt bnd true x = some (n, f)) : matchDelimAt bnd false x = some (n, f) := by
+  rcases matchDelimAt_iff'.1 h with ⟨r, m, _, hd, hm, hn⟩
+  exact matchDelimAt_iff.2 ⟨r, m, hl, hd, hm, hn⟩
+
+/-- the whole body has its first delimiter at offset 0 -/
+theorem encBody_match (bnd : Bytes) (ps : List Part) :
+    ∃ m, matchDelimAt bnd false (encBody bnd ps) = some (2 + (bnd.length + 2) + m, ps.isEmpty) ∧
+      (encBody bnd ps).drop (2 + (bnd.length + 2) + m) = afterOf bnd ps := by
+  rcases matchTail_afterDelim (afterDelim_tailOf bnd ps) with ⟨m, hm, hdrop⟩
+  refine ⟨m, ?_, ?_⟩
+  · rw [encBody_eq]
+    apply matchDelimAt_iff.2
+    exact ⟨tailOf bnd ps, m, by simp [lbLen_crlf], by simp [lbLen_crlf], hm, by simp [lbLen_crlf]⟩
+  · rw [encBody_eq]
+    have e : (13 :: 10 :: (delim bnd ++ tailOf bnd ps) : Bytes) = [13, 10] ++ (delim bnd ++ tailOf bnd ps) := rfl
+    have e2 : 2 + (bnd.length + 2) + m = (m + (delim bnd).length) + ([13, 10] : Bytes).length := by
+      simp [delim]; omega
+    rw [e, e2, drop_add_append, drop_add_append, hdrop]
+
+/-- while the first delimiter is not complete in the buffer, `preamble_re` finds nothing at all -/
+theorem pre_no_match {bnd : Bytes} (hb : BoundaryOk bnd) {ps : List Part} {b fut : Bytes}
+    (hcat : b ++ fut = encBody bnd ps) (h0 : matchDelimAt bnd true b = none) :
+    searchDelim bnd true b = none ∧ b.length ≤ bnd.length + 5 := by
+  rcases encBody_match bnd ps with ⟨m, hM, _⟩
+  have hMt := matchDelimAt_true_of_false hM
+  -- the buffer is short
+  have hshort : b.length ≤ bnd.length + 5 := by
+    apply Nat.le_of_not_lt
+    intro hlt
+    rw [← hcat] at hMt
+    cases hf : ps.isEmpty with
+    | true =>
+      rw [hf] at hMt
+      rcases matchDelimAt_restrict_true hMt (by omega) with ⟨n', hn'⟩
+      rw [h0] at hn'; simp at hn'
+    | false =>
+      rw [hf] at hMt
+      -- the non-closing first delimiter is `CRLF--boundary CRLF`: n + 6 bytes
+      have hm2 : m = 2 := by
+        cases ps with
+        | nil => simp at hf
+        | cons p ps =>
+          rcases hdrBlock_head (nameOf p) p with ⟨r, hr⟩
+          have ht : tailOf bnd (p :: ps) = 13 :: 10 :: 67 :: (r ++ 13 :: 10 ::
+              ((if p.payload.isEmpty then [] else 13 :: 10 :: p.payload) ++ encBody bnd ps)) := by
+            simp [tailOf, hr]
+          have hmt : matchTail (tailOf bnd (p :: ps)) = some (2, false) := by
+            rw [ht]; apply matchTail_false_iff.2
+            exact ⟨[], 13, _, rfl, by simp, by decide, by simp [lbLen_crlf]⟩
+          rw [← hcat] at hM
+          rcases matchDelimAt_iff.1 hM with ⟨r', m', _, hd, hm', hn⟩
+          rw [hcat, encBody_eq] at hd hn
+          simp [lbLen_crlf] at hd hn
+          have : r' = tailOf bnd (p :: ps) := hd.symm
+          rw [this, hmt] at hm'
+          simp at hm'
+          omega
+      subst hm2
+      have := matchDelimAt_restrict_false hMt (by omega)
+      rw [h0] at this; simp at this
+  refine ⟨?_, hshort⟩
+  -- no position of the buffer carries a match
+  have hpre : b <+: encBody bnd ps := ⟨fut, hcat⟩
+  have hall : ∀ j, matchDelimAt bnd true (b.drop j) = none := by
+    intro j
+    cases hx : matchDelimAt bnd true (b.drop j) with
+    | none => rfl
+    | some v =>
+      exfalso
+      rcases v with ⟨n1, f1⟩
+      by_cases hl : 0 < lbLen (b.drop j)
+      · -- a match of `boundary_re`: by stability it is the first match of the whole body, at 0
+        have hfm := matchDelimAt_false_of_true hl hx
+        have hne := searchDelim_of_match_drop hfm
+        cases hs : searchDelim bnd false b with
+        | none => exact hne hs
+        | some w =>
+          rcases w with ⟨s', e', f'⟩
+          rcases searchDelim_append_stable hb hs fut with ⟨e2, hst, _⟩
+          have hS0 : searchDelim bnd false (encBody bnd ps) =
+              some (0, 2 + (bnd.length + 2) + m, ps.isEmpty) := by
+            rw [encBody_eq] at hM ⊢
+            exact searchDelim_cons_some hM
+          rw [hcat, hS0] at hst
+          simp only [Option.some.injEq, Prod.mk.injEq] at hst
+          rcases hst with ⟨rfl, _, _⟩
+          rcases searchDelim_some_iff hs with ⟨_, _, hm0, _⟩
+          simp only [List.drop_zero, Nat.sub_zero] at hm0
+          rw [matchDelimAt_true_of_false hm0] at h0; simp at h0
+      · have hl0 : lbLen (b.drop j) = 0 := by omega
+        rcases matchDelimAt_iff'.1 hx with ⟨r, m1, _, hd, hm1, _⟩
+        rw [hl0, List.drop_zero] at hd
+        -- b.drop j = delim ++ r
+        have hjlen : (b.drop j).length = b.length - j := by simp
+        have hdl : (delim bnd).length + r.length = b.length - j := by
+          rw [← hjlen, hd]; simp
+        rw [delim_length] at hdl
+        have hj3 : j ≤ 3 := by omega
+        match j, hj3 with
+        | 0, _ => simp only [List.drop_zero] at hx; rw [h0] at hx; simp at hx
+        | 1, _ =>
+          -- byte 1 of the body is LF
+          have : b.drop 1 <+: (encBody bnd ps).drop 1 := by
+            rcases hpre with ⟨t, ht⟩
+            refine ⟨t, ?_⟩
+            rw [← ht, List.drop_append_of_le_length (by omega)]
+          rw [encBody_eq, hd] at this
+          simp only [List.drop_succ_cons, List.drop_zero] at this
+          rcases this with ⟨t, ht⟩
+          simp [delim] at ht
+        | 2, _ =>
+          -- then the buffer itself matches at 0
+          have hb2 : b = 13 :: 10 :: (delim bnd ++ r) := by
+            have h2 : 2 ≤ b.length := by omega
+            have htake : b.take 2 = [13, 10] := by
+              have : b.take 2 <+: (encBody bnd ps) := List.IsPrefix.trans (List.take_prefix 2 b) hpre
+              rw [encBody_eq] at this
+              rcases this with ⟨t, ht⟩
+              have hl2 : (b.take 2).length = 2 := by simp [Nat.min_eq_left h2]
+              match hbt : b.take 2, hl2 with
+              | [x, y], _ => rw [hbt] at ht; simp at ht; rw [ht.1, ht.2.1]
+            rw [← List.take_append_drop 2 b, htake, hd]; rfl
+          have : matchDelimAt bnd true b = some (2 + (bnd.length + 2) + m1, f1) := by
+            rw [hb2]
+            exact matchDelimAt_iff'.2 ⟨r, m1, by simp, by simp [lbLen_crlf], hm1, by simp [lbLen_crlf]⟩
+          rw [h0] at this; simp at this
+        | 3, _ =>
+          have hr0 : r = [] := by
+            have : r.length = 0 := by omega
+            exact List.eq_nil_of_length_eq_zero this
+          rw [hr0] at hm1
+          simp [matchTail, lbLen] at hm1
+  have := searchDelim_skip (bnd := bnd) (o := true) b b.length (fun j _ => hall j)
+  rw [this]
+  simp [searchDelim]
+
 /-- what comes after the delimiter that ends a part -/
 def GoodNext (bnd : Bytes) (d : Decoder) (fut : Bytes) : List Part → Prop
   | [] => Good bnd d fut .epi
   | p :: ps => ∃ lf, Good bnd d fut (.hdr lf p ps)
+
+/-- one `next_event` in the PREAMBLE phase, on any prefix of the encoder output -/
+theorem step_pre {bnd : Bytes} (hb : BoundaryOk bnd) {d : Decoder} {fut : Bytes} {ps : List Part}
+    (hg : Good bnd d fut (.pre ps)) :
+    (∃ d', nextEvent d = .ok (.needData, d') ∧ Good bnd d' fut (.pre ps) ∧ fut ≠ []) ∨
+    (∃ d', nextEvent d = .ok (.preamble [], d') ∧ GoodNext bnd d' fut ps) := by
+  rcases hg with ⟨hpl, hst, hsp, hcat⟩
+  have hpl' := hpl
+  rcases hpl with ⟨hbn, hcomp, hmm, hmp⟩
+  rcases encBody_match bnd ps with ⟨m, hM, hMdrop⟩
+  have hfrom : searchDelimFrom d.boundary true d.searchPos d.buffer = searchDelim bnd true d.buffer := by
+    rw [searchDelimFrom_eq_shift, hsp, hbn]; simp
+  cases h0 : matchDelimAt bnd true d.buffer with
+  | none =>
+    left
+    rcases pre_no_match hb hcat h0 with ⟨hnone, hshort⟩
+    let d' : Decoder := { d with searchPos := d.buffer.length - d.boundary.length - searchExtra }
+    have hsp' : d'.searchPos = 0 := by
+      simp only [d', hbn, searchExtra_eq]; omega
+    refine ⟨d', ?_, ⟨hpl', hst, hsp', hcat⟩, ?_⟩
+    · unfold nextEvent
+      have hstep : step d = .ok (.needData, d') := by
+        unfold step
+        rw [hst]
+        simp only
+        rw [hfrom, hnone]
+        simp only [d']
+        congr 2
+        cases d; simp_all
+      rw [hstep, hcomp]; simp
+    · intro hfe
+      rw [hfe, List.append_nil] at hcat
+      rw [hcat, matchDelimAt_true_of_false hM] at h0; simp at h0
+  | some v =>
+    right
+    rcases v with ⟨e, f⟩
+    -- the buffer starts with CRLF: the match is one of `boundary_re` too
+    have hbnd0 := matchDelimAt_bounds_any h0
+    have hlb : 0 < lbLen d.buffer := by
+      have h2 : 2 ≤ d.buffer.length := by
+        rcases matchDelimAt_iff'.1 h0 with ⟨r, m1, _, hd, _, hn⟩
+        have := lbLen_le_length d.buffer
+        omega
+      rcases encBody_eq bnd ps ▸ hcat with hc
+      rw [lbLen_of_crlf_prefix (Z := delim bnd ++ tailOf bnd ps) (by rw [hcat, encBody_eq]) h2]; omega
+    have h0f := matchDelimAt_false_of_true hlb h0
+    rcases matchDelimAt_append fut h0f with ⟨e', he', hrel⟩
+    rw [hcat, hM] at he'
+    simp only [Option.some.injEq, Prod.mk.injEq] at he'
+    rcases he' with ⟨he', hF⟩
+    have hsearch : searchDelim bnd true d.buffer = some (0, e, f) := by
+      cases hbuf : d.buffer with
+      | nil => rw [hbuf] at hbnd0; simp at hbnd0; omega
+      | cons a t => rw [hbuf] at h0; exact searchDelim_cons_some h0
+    let d' : Decoder := { d with buffer := d.buffer.drop e, state := afterDelim f, searchPos := 0 }
+    refine ⟨d', ?_, ?_⟩
+    · unfold nextEvent
+      have hstep : step d = .ok (.preamble [], d') := by
+        unfold step
+        rw [hst]
+        simp only
+        rw [hfrom, hsearch]
+        simp only [d', List.take_zero]
+      rw [hstep, hcomp]; simp
+    · cases ps with
+      | nil =>
+        simp only [List.isEmpty_nil] at hF
+        subst hF
+        exact ⟨hpl', rfl⟩
+      | cons p' ps' =>
+        simp only [List.isEmpty_cons] at hF
+        subst hF
+        rcases hrel rfl with heq | ⟨heq, hlen, c', hc⟩
+        · refine ⟨false, hpl', rfl, ?_, [], d.buffer.drop e, by simp [d'], by simp [searchBlank], by simp [d']⟩
+          simp only [lfPre, Bool.false_eq_true, if_false, List.nil_append, d']
+          rw [← hMdrop, he', heq, ← hcat, List.drop_append_of_le_length hbnd0.2]
+        · refine ⟨true, hpl', rfl, ?_, [], d.buffer.drop e, by simp [d'], by simp [searchBlank], by simp [d']⟩
+          simp only [lfPre, if_true, d']
+          have hd0 : d.buffer.drop e = [] := by rw [← hlen]; simp
+          simp only [hd0, List.nil_append, hc]
+          rw [← hMdrop, he', heq, ← hcat, hc, ← hlen]
+          have := drop_add_append d.buffer (10 :: c') 1
+          rw [Nat.add_comm] at this
+          rw [this]; rfl
 
 /-- a delimiter recognised in the buffer: it is the one that ends the part -/
 theorem decision_next {bnd : Bytes} (hb : BoundaryOk bnd) {d : Decoder} {fut pre : Bytes} {p : Part}
@@ -861,13 +1105,6 @@ theorem step_dataM {bnd : Bytes} (hb : BoundaryOk bnd) {d : Decoder} {fut : Byte
       · refine ⟨hpl', rfl, hsp, pre ++ d.buffer.take k, ?_, by simp; omega, hinv'⟩
         rw [List.drop_append_of_le_length hpre2, hE]
 
-theorem lbLen_of_crlf_prefix {b fut Z : Bytes} (h : b ++ fut = 13 :: 10 :: Z) (h2 : 2 ≤ b.length) :
-    lbLen b = 2 := by
-  match b, h2 with
-  | x :: y :: t, _ =>
-    simp at h
-    rw [h.1, h.2.1]; simp [lbLen]
-
 /-- one `next_event` in the DATA_START phase, on any prefix of the stream -/
 theorem step_dataS {bnd : Bytes} (hb : BoundaryOk bnd) {d : Decoder} {fut : Bytes} {p : Part}
     {ps : List Part} (hg : Good bnd d fut (.dataS p ps)) :
@@ -938,6 +1175,7 @@ theorem step_epi {bnd : Bytes} {d : Decoder} {fut : Bytes} (hg : Good bnd d fut 
 
 /-- the accumulator of `partsGo` that a phase expects -/
 def CurOk : Phase → Option Part → Prop
+  | .pre _, _ => True
   | .hdr _ _ _, _ => True
   | .dataS p _, cur => cur = some { decodedPart p with payload := [] }
   | .dataM p _ E, cur => cur = some { decodedPart p with payload := E }
@@ -945,6 +1183,7 @@ def CurOk : Phase → Option Part → Prop
 
 /-- what `partsGo` will have produced at the end -/
 def Exp : Phase → Option Part → List Part
+  | .pre ps, cur => cur.toList ++ ps.map decodedPart
   | .hdr _ p ps, cur => cur.toList ++ (p :: ps).map decodedPart
   | .dataS p ps, _ => (p :: ps).map decodedPart
   | .dataM p ps _, _ => (p :: ps).map decodedPart
@@ -970,6 +1209,7 @@ theorem Acct.trans {a b c : Phase} {e1 e2 : List Event} (h1 : Acct a b e1) (h2 :
 
 /-- the parts of a phase are valid -/
 def PhaseValid (bnd : Bytes) : Phase → Prop
+  | .pre ps => ∀ q ∈ ps, ValidPart bnd q
   | .hdr _ p ps => ValidPart bnd p ∧ ∀ q ∈ ps, ValidPart bnd q
   | .dataS p ps => ValidPart bnd p ∧ ∀ q ∈ ps, ValidPart bnd q
   | .dataM p ps _ => ValidPart bnd p ∧ ∀ q ∈ ps, ValidPart bnd q
@@ -1033,6 +1273,18 @@ theorem acct_last {p : Part} {ps : List Part} {ph ph' : Phase} {E x : Bytes}
     · intro rest; simp [partsGo, hq]
     · rw [hexp]; simp [Exp]
 
+theorem acct_pre {ps : List Part} {ph' : Phase} (hn : nextPhaseOk ph' ps) :
+    Acct (.pre ps) ph' [.preamble []] := by
+  intro cur _
+  cases ps with
+  | nil =>
+    simp only [nextPhaseOk] at hn
+    subst hn
+    exact ⟨cur, [], trivial, fun rest => by cases cur <;> simp [partsGo], by simp [Exp]⟩
+  | cons p' ps' =>
+    rcases hn with ⟨lf, rfl⟩
+    exact ⟨cur, [], trivial, fun rest => by cases cur <;> simp [partsGo], by simp [Exp]⟩
+
 theorem goodNext_phase {bnd : Bytes} {d : Decoder} {fut : Bytes} {ps : List Part}
     (h : GoodNext bnd d fut ps) (hv : ∀ q ∈ ps, ValidPart bnd q) :
     ∃ ph', Good bnd d fut ph' ∧ PhaseValid bnd ph' ∧ nextPhaseOk ph' ps := by
@@ -1064,6 +1316,10 @@ theorem drain_good {bnd : Bytes} (hb : BoundaryOk bnd) (fut : Bytes) :
     intro d ph acc hle hg hv
     cases ph with
     | epi => exact ⟨[], d, .epi, DrainsOk.stop acc (step_epi hg), hg, trivial, Acct.refl _, fun _ => rfl⟩
+    | pre ps =>
+      rcases step_pre hb hg with ⟨d', h1, h2, h3⟩ | ⟨d', h1, _⟩
+      · exact ⟨[], d', _, DrainsOk.stop acc h1, h2, hv, Acct.refl _, fun h => absurd h h3⟩
+      · rcases shrink_step h1 (by simp) (by simp) hle with ⟨k, hk, _⟩; omega
     | hdr lf p ps =>
       rcases step_hdr hb hv.1 hg with ⟨d', h1, h2, h3⟩ | ⟨d', h1, _⟩
       · exact ⟨[], d', _, DrainsOk.stop acc h1, h2, hv, Acct.refl _, fun h => absurd h h3⟩
@@ -1084,6 +1340,15 @@ theorem drain_good {bnd : Bytes} (hb : BoundaryOk bnd) (fut : Bytes) :
     intro d ph acc hle hg hv
     cases ph with
     | epi => exact ⟨[], d, .epi, DrainsOk.stop acc (step_epi hg), hg, trivial, Acct.refl _, fun _ => rfl⟩
+    | pre ps =>
+      rcases step_pre hb hg with ⟨d', h1, h2, h3⟩ | ⟨d', h1, h2⟩
+      · exact ⟨[], d', _, DrainsOk.stop acc h1, h2, hv, Acct.refl _, fun h => absurd h h3⟩
+      · rcases shrink_step h1 (by simp) (by simp) hle with ⟨k, hk, hle'⟩
+        have hk' : k = n := by omega
+        subst hk'
+        rcases goodNext_phase h2 hv with ⟨ph1, hg1, hv1, hn1⟩
+        rcases ih d' ph1 (.preamble [] :: acc) hle' hg1 hv1 with ⟨evs, d2, ph2, hd, hg2, hv2, ha, hf⟩
+        exact ⟨_, d2, ph2, DrainsOk.step_pre h1 hd, hg2, hv2, Acct.trans (acct_pre hn1) ha, hf⟩
     | hdr lf p ps =>
       rcases step_hdr hb hv.1 hg with ⟨d', h1, h2, h3⟩ | ⟨d', h1, h2⟩
       · exact ⟨[], d', _, DrainsOk.stop acc h1, h2, hv, Acct.refl _, fun h => absurd h h3⟩
@@ -1136,6 +1401,9 @@ theorem good_receive {bnd : Bytes} {d : Decoder} {c fut : Bytes} {ph : Phase}
   refine ⟨{ d with buffer := d.buffer ++ c }, by simp [receive, hmm], ?_⟩
   cases ph with
   | epi => exact ⟨⟨hbn, hcomp, hmm, hmp⟩, hg.2⟩
+  | pre ps =>
+    rcases hg with ⟨_, hst, hsp, hcat⟩
+    exact ⟨⟨hbn, hcomp, hmm, hmp⟩, hst, hsp, by simpa using hcat⟩
   | hdr lf p ps =>
     rcases hg with ⟨_, hst, hcat, b0, c0, hbc, hb0, hpos⟩
     exact ⟨⟨hbn, hcomp, hmm, hmp⟩, hst, by simpa using hcat, b0, c0 ++ c, by simp [hbc], hb0, hpos⟩
@@ -1207,5 +1475,20 @@ theorem decode_chunks_lemma {bnd : Bytes} (hb : BoundaryOk bnd) (ps : List Part)
     have := feedAll_good hb chunks _ (.hdr false p ps) hg
       ⟨hv p (by simp), fun q hq => hv q (by simp [hq])⟩ hne none trivial
     simpa [partsOf, Exp] using this
+
+
+/-- **chunk independence on encoder output, from the first byte** -/
+theorem decode_chunks_full_lemma {bnd : Bytes} (hb : BoundaryOk bnd) (ps : List Part)
+    (hv : ∀ p ∈ ps, ValidPart bnd p) (chunks : List Bytes) (hjoin : chunks.flatten = encBody bnd ps) :
+    (decodeChunks bnd none none chunks).err = none ∧
+    partsOf (decodeChunks bnd none none chunks).events = ps.map decodedPart := by
+  have hg : Good bnd (mkDecoder bnd none none) chunks.flatten (.pre ps) :=
+    ⟨⟨rfl, rfl, rfl, rfl⟩, rfl, rfl, by simp [mkDecoder, hjoin]⟩
+  have hne : chunks.flatten = [] → Phase.pre ps = .epi := by
+    intro h0
+    rw [hjoin, encBody_eq] at h0
+    simp at h0
+  have := feedAll_good hb chunks _ (.pre ps) hg hv hne none trivial
+  simpa [partsOf, Exp, decodeChunks] using this
 
 end Wz.Multipart
